@@ -174,9 +174,13 @@ class Tracer:
                     ret = real(file, mode, *a, **k)
                     tr._before(('write', os.fspath(file)))
                     return ret
-                # plain 'w'/'a': create-or-truncate in place
+                # plain 'w'/'a': create-or-truncate in place; the data are
+                # written after the call returns (a crash point of its own:
+                # the file is empty or partly written there)
                 tr._before(('openw', os.fspath(file), mode))
-                return real(file, mode, *a, **k)
+                ret = real(file, mode, *a, **k)
+                tr._before(('write', os.fspath(file)))
+                return ret
             return open_
 
         os.rename, os.remove, os.unlink = rename, remove, unlink
